@@ -217,7 +217,7 @@ def parseMultilineText (t : Text) (maxLines maxLen : Nat) : Res (List Text) :=
 def validateMultilineText (ls : List Text) (maxLines maxLen : Nat) : Res (List Text) :=
   if ls.isEmpty then .err
   else if ls.length > maxLines then .err
-  else if !(ls.all (fun l => blen l ≤ maxLen && l.all isSwiftX)) then .err
+  else if !(ls.all (fun l => blen l ≤ maxLen && !l.isEmpty && l.all isSwiftX)) then .err
   else .ok ls
 
 /-! ### JSON values (what serde writes for a field) -/
